@@ -83,7 +83,7 @@ end Dig
 
 namespace Dig
 
-theorem CtxSame.rfl' (ctx : Ctx) : CtxSame ctx ctx := ⟨rfl, rfl, rfl, rfl, rfl⟩
+theorem CtxSame.rfl' (ctx : Ctx) : CtxSame ctx ctx := ⟨rfl, rfl, rfl, rfl, rfl, rfl⟩
 
 /-- Invoke on two containers equal up to honest flags -/
 theorem invoke_simV {a b : St} (hab : EqButVerified a b) (ctx : Ctx) (ha : VInv ctx.cfg a) (hbI : VInv ctx.cfg b)
